@@ -1,6 +1,8 @@
 package props
 
 import (
+	"context"
+	"errors"
 	"fmt"
 	"net/url"
 	"strings"
@@ -192,7 +194,21 @@ func TestC03_PKCE(t *testing.T) {
 			if verifier != "" {
 				form.Set("code_verifier", verifier)
 			}
+			// the PKCE lookup of this attempt may fail for a reason other than "not found" (timeout, lost connection):
+			// whatever the handler then does, it has not seen the challenge, so nothing may be issued on its strength.
+			faulted := !decisive && rapid.IntRange(0, 6).Draw(rt, "pkceLookupFault") == 0
+			if faulted {
+				ferr := rapid.SampledFrom([]error{errors.New("i/o timeout"), context.DeadlineExceeded, fosite.ErrSerializationFailure, fosite.ErrServerError}).Draw(rt, "faultError")
+				w.W.Before = func(c *h.Call) error {
+					if c.Method == "GetPKCERequestSession" {
+						return ferr
+					}
+					return nil
+				}
+				k += "+pkce-lookup-fault"
+			}
 			tr := w.Token(form, auth, h.TokenOpts{})
+			w.W.Before = nil
 			// reference decision
 			allowed := false
 			if hasChallenge {
@@ -205,6 +221,15 @@ func TestC03_PKCE(t *testing.T) {
 				}
 			} else {
 				allowed = verifier == "" && !enforcedForClient
+			}
+			mayRefuse := false
+			if faulted {
+				// a failed lookup never entitles anybody; refusing a correct attempt is the expected outcome
+				mayRefuse = true
+				if hasChallenge || enforcedForClient {
+					allowed = false
+				}
+				h.Label("pkce-lookup-fault")
 			}
 			logf("attempt %d %s verifier=%q -> %v (reference: allowed=%v)", i, k, verifier, tr.Err, allowed)
 			shape = append(shape, k)
@@ -222,7 +247,7 @@ func TestC03_PKCE(t *testing.T) {
 			if tr.Access != "" || tr.Refresh != "" || tr.IDToken != "" {
 				fail("C03/tokens-in-error-response", "refused attempt carries tokens")
 			}
-			if allowed {
+			if allowed && !mayRefuse {
 				fp := "C03/correct-verifier-refused"
 				if failedBefore > 0 {
 					fp = "C03/correct-verifier-refused-after-failed-attempts"
